@@ -194,6 +194,8 @@ def run(tier, seed, t0):
                     st.add(case, out)
                 nseq += 1
     st.extra["single_process_history_sweep_cases"] = nseq
+    # the same decoding under other interpreter configurations (-O, -OO, -W error, -X dev)
+    core.interpreter_modes("C09", allc[:: max(1, len(allc) // 400)], st)
     st.extra["msm_identities"] = len(pinned.MSM_NUMBERS)
     return core.finish(
         "C09", tier, seed, LEVEL, st, RULE, t0,
